@@ -1,5 +1,5 @@
 """Replay dispatch: name of a bounded stand-in -> function(input) -> (ok, text)."""
-from . import rules, builders, invariance
+from . import rules, builders, invariance, projects
 
 RERUN = {
     "C01.verdict-vs-documented-semantics": rules.rerun_verdict,
@@ -11,4 +11,9 @@ RERUN = {
     "C16.layer-builder-sequences-vs-specification-automaton": builders.rerun_c16,
     "C14.verdicts-and-messages-invariant-under-component-renaming": invariance.rerun_renaming,
     "C15.purity-history-order-seed-independence": invariance.rerun_purity,
+    "C02.import-statements-vs-edges": projects.rerun_c02,
+    "C04.modules-mirror-directory-tree": projects.rerun_c04,
+    "C08.exclusions-remove-exactly-matching-paths": projects.rerun_c08,
+    "C09.level-limit-is-the-quotient-graph": projects.rerun_c09,
+    "C10.external-options-touch-only-externals": projects.rerun_c10,
 }
